@@ -86,6 +86,52 @@ theorem encode_then_decode_accepted (s : SchemaDef) (md : MessageDef) (m : NMess
     ∧ endL s.byteOrder out.1 m.level.erase pre.length m.level.erase.blockLen = out.2 :=
   encode_then_decode s.byteOrder "" m.level v pre mid post (resolve_wf s md m hr).1 (resolve_wf s md m hr).2 he hf hlen
 
+/-- **message_round_trip** (C17 ∘ C01 ∘ C02): a whole message.  Run the
+    generated `fill_message_header` on arbitrary previous header bytes, encode
+    `v` behind the header over arbitrary previous contents; a decoder that knows
+    only the buffer reads `blockLength` from the header member the filler wrote
+    (`bl`, found by name in the header composite) and from there observes
+    exactly `v`; its computed end is the encoder's end.  Hypotheses about the
+    header composite: the written members do not overlap, lie inside the header,
+    and the level's block length fits the `blockLength` member. -/
+theorem message_round_trip (s : SchemaDef) (md : MessageDef) (m : NMessage)
+    (hr : resolveMessage s md = .ok m) (ng nd : Nat) (bl : Leaf)
+    (hbl : (bl, m.level.erase.blockLen) ∈ Gen.messageHeaderFields s m ng nd)
+    (hd : Gen.PairwiseDisj (Gen.messageHeaderFields s m ng nd))
+    (hp : ∀ y ∈ Gen.messageHeaderFields s m ng nd, y.1.off + y.1.size ≤ m.hdrSize)
+    (hfit : m.level.erase.blockLen < 256 ^ bl.size)
+    (hdr0 mid post : List Nat) (hh : hdr0.length = m.hdrSize) (v : LVal)
+    (he : Spec.EncL s.byteOrder m.level.erase v) (hf : Spec.FitL m.level.erase v)
+    (hlen : mid.length = (flattenL s.byteOrder m.level.erase v).length) :
+    let hdr := Gen.fillMessageHeader s.byteOrder s m ng nd hdr0
+    let out := Spec.encL s.byteOrder m.level.erase v (hdr ++ mid ++ post) hdr.length
+    let wbl := rd s.byteOrder out.1 bl.off bl.size
+    modelL s.byteOrder out.1 "" m.level m.hdrSize wbl = specL s.byteOrder "" m.level v
+    ∧ endL s.byteOrder out.1 m.level.erase m.hdrSize wbl = out.2 := by
+  intro hdr out wbl
+  have hp0 : ∀ y ∈ Gen.messageHeaderFields s m ng nd, y.1.off + y.1.size ≤ hdr0.length :=
+    fun y hy => by rw [hh]; exact hp y hy
+  have hl : hdr.length = m.hdrSize := by
+    show (Spec.writeExtras s.byteOrder hdr0 0 _).length = _
+    rw [Gen.writeExtras_len s.byteOrder hdr0 _ hp0, hh]
+  have hval : rd s.byteOrder hdr bl.off bl.size = m.level.erase.blockLen :=
+    Gen.writeExtras_value s.byteOrder hdr0 _ (bl, m.level.erase.blockLen) hbl hd hp0 hfit
+  obtain ⟨h1, _⟩ := Spec.encL_spec s.byteOrder m.level.erase v hdr mid post he hlen
+  have hw : wbl = m.level.erase.blockLen := by
+    show rd s.byteOrder out.1 bl.off bl.size = _
+    have ho : out.1 = hdr ++ flattenL s.byteOrder m.level.erase (Spec.fillL s.byteOrder m.level.erase v mid) ++ post := by
+      show (Spec.encL s.byteOrder m.level.erase v (hdr ++ mid ++ post) hdr.length).1 = _
+      rw [h1]
+    have hb : bl.off + bl.size ≤ hdr.length := by rw [hl]; exact hp _ hbl
+    have := rd_mid s.byteOrder [] hdr
+      (flattenL s.byteOrder m.level.erase (Spec.fillL s.byteOrder m.level.erase v mid) ++ post) bl.off bl.size hb
+    simp only [List.nil_append, List.length_nil, Nat.zero_add] at this
+    rw [ho, List.append_assoc, this]
+    exact hval
+  rw [hw, ← hl]
+  exact encode_then_decode s.byteOrder "" m.level v hdr mid post (resolve_wf s md m hr).1 (resolve_wf s md m hr).2
+    he hf hlen
+
 /-- a scalar written in the schema's byte order reads back bit-exactly (this is
     what `set_primitive`/`get_primitive` do: native copy or byte reversal);
     floats are their IEEE bit patterns, so NaN payloads are covered -/
